@@ -99,11 +99,15 @@ CLAIMS = {
                 'well-formed trees. Mirror duality for operands of equal rank is covered by the correspondence/oracle only.',
         'technique': 'Coq proof (list-level algebra bridged to the compute function) + relational oracle + correspondence'},
     'C10': {
-        'text': 'PARTIAL (theorems named _partial): element-level facts of validators and comparators — only operands of the literal\'s '
-                'JSON type survive validation, json.Number is replaced by its float64 value before any comparison, ordering comparators '
-                'never reach their unchecked assertions. The lifting to whole selections under both decodings is decided by the '
-                'correspondence check and direct oracles (selections under float64 vs json.Number decoding; type of every selected operand).',
-        'note': NOTE_COMMON, 'technique': 'Coq lemmas on comparator model + two-decoding differential oracle + correspondence'},
+        'text': 'C10_decode_invariant / C10_path_decode_invariant (coq/Prop_C10.v, SpecDecode.v), on the specification the model refines '
+                'exactly: converting every float64 of a document to json.Number (spelling determines value: Go\'s shortest formatting, the '
+                'property\'s own restriction) selects the same members with EVERY function-free filter (existence, six operators, regex, '
+                'literal/@/$ operands, && || !) and the same cursors with every function-free path; element-level theorems: only '
+                'operands of the literal\'s JSON type survive validation, json.Number is compared by its float64 value, ordering '
+                'comparators never reach their unchecked assertions. Direct oracle: both decodings of every generated document on the '
+                'real library must select the same members; type of every selected operand.',
+        'note': NOTE_COMMON + ' Scope of the decoding theorem: no user functions in the path; path == path comparisons have no literal operand.',
+        'technique': 'Coq simulation proof on the specification (mutual induction) + two-decoding differential oracle + correspondence'},
     'C11': {
         'text': 'Theorems C11_slice_python / C11_index_python / C11_total_in_range (coq/Prop_C11.v): the model of the three '
                 'subscript files, with explicit 64-bit wrap-around and the result-buffer bound as a panic outcome, selects '
